@@ -393,6 +393,33 @@ def run(F, rep, tier):
             rep.viol('R4.5', 'OpAssign|every|operands', 'the every-op-assign closure does not call run2(old element, rhs)', oa['modify_every'][0].loc())
     except CheckError as e:
         rep.error('R4.5', str(e))
+    # ---------------- R4.8
+    rep.rule('R4.8', 'sections fill their slots left to right: in apply_section every value placed into a `_` slot is taken from the front of '
+             'the argument sequence (Iterator::next / remove(0) / pop_front), and no order-disturbing consumer (swap_remove, pop, next_back, '
+             'rev, reverse, sort*) is applied to the arguments - with three or more slots those permute the call')
+    asn = 'eval::apply_section'
+    if not F.has_fn(asn):
+        rep.error('R4.8', 'apply_section missing')
+    else:
+        ab8 = F.body(asn)
+        BREAK = ('swap_remove', 'pop', 'next_back', 'rev', 'reverse', 'sort', 'sort_by', 'sort_unstable', 'sort_by_key', 'pop_back', 'rposition', 'rfold', 'last')
+        FRONT = ('next', 'remove', 'pop_front')
+        bodies8 = [ab8] + [F.body(c) for c in F.closures_of(asn)]
+        bad8 = [(b_, c) for b_ in bodies8 for c in b_.calls if c.target.rsplit('::', 1)[-1] in BREAK]
+        pushes = [c for c in ab8.calls if c.target.endswith('::push') and len(c.args) > 1]
+        srcs = set()
+        for c in pushes:
+            for o in origins(ab8, c.args[1], passthru=('branch', 'unwrap', 'expect')):
+                if o[0] == 'call':
+                    srcs.add(o[1].rsplit('::', 1)[-1])
+        if bad8:
+            b_, c = bad8[0]
+            rep.viol('R4.8', '%s|order|%s' % (asn, c.target.rsplit('::', 1)[-1]), 'apply_section consumes the arguments of a section with %s, which does not preserve their order: f(_, _, _)(1, 2, 3) no longer calls f(1, 2, 3)' % c.target.rsplit('::', 1)[-1], c.loc())
+        elif srcs & set(FRONT):
+            rep.ok('R4.8', 'apply_section', 'slot values come from %s; no order-disturbing consumer' % sorted(srcs & set(FRONT)))
+        else:
+            rep.ok('R4.8', 'apply_section (idiom not recognised)', 'no order-disturbing consumer; slot values come from %s' % sorted(srcs))
+            rep.note('R4.8: apply_section fills slots through %s, not one of the recognised front consumers: order not decided' % sorted(srcs))
     rep.undecided += ['extensional equality of each builtin across forms when its body is wrong', 'user-defined closures (one path: Closure::run)']
     return META
 
